@@ -183,15 +183,13 @@ def apply_step(h, m: Model, step, handles: dict) -> list[Fail]:
         _, sub, psel = step
         parent = pick(psel)
         b, bm, bh = build(sub)
-        # parent-first order is a documented precondition of insert_hugr
-        if any(v["parent"] is not None and v["parent"] > i for i, v in bm.nodes.items()):
-            m.flags.add("insert-skipped-child-before-parent")
-            return fails
+        # parent-first order is a documented precondition of insert_hugr; every HUGR built through the
+        # API satisfies it (a child never gets an index below its parent's), so the model expects success
         before_b = snapshot(b)
         try:
             mapping = h.insert_hugr(b, handles[parent])
         except ParentBeforeChild:
-            return [Fail("insert_hugr", "ParentBeforeChild", "raised for a parent-first HUGR")]
+            return [Fail("insert_hugr", "ParentBeforeChild", "raised for a HUGR built through the API")]
         mp = {k.idx: v for k, v in mapping.items()}
         if sorted(mp) != bm.live():
             fails.append(Fail("insert_hugr", "mapping-domain", f"{sorted(mp)} vs {bm.live()}"))
@@ -347,7 +345,7 @@ def compare(h, m: Model, handles) -> list[Fail]:
 
 # ------------------------------------------------------------------ strategies
 
-META = st.one_of(st.none(), st.none(), st.dictionaries(st.sampled_from(["k", "name", "ü"]), st.one_of(st.integers(-3, 3), st.text(max_size=3), st.none(), st.lists(st.integers(0, 2), max_size=2)), max_size=2))
+META = st.one_of(st.none(), st.none(), st.dictionaries(st.sampled_from(["k", "name", "ü"]), st.one_of(st.integers(-3, 3), st.text(max_size=3), st.none(), st.lists(st.integers(0, 2), max_size=2), st.booleans(), st.sampled_from([0.0, 1.0, 2.5])), max_size=2))
 SEL = st.integers(0, 30)
 OFF = st.integers(0, 5)
 
@@ -359,6 +357,7 @@ def step_strategy(with_insert: bool, max_sub: int = 8):
         (5, st.tuples(st.just("add_link"), SEL, st.integers(0, 2), SEL, st.integers(0, 2)).map(list)),
         (2, st.tuples(st.just("add_link"), SEL, OFF, SEL, OFF).map(list)),
         (2, st.tuples(st.just("add_order_link"), SEL, SEL).map(list)),
+        (1, st.tuples(st.just("add_link"), st.integers(0, 4), st.just(-1), st.integers(0, 4), st.just(-1)).map(list)),  # an order link as a plain link: not de-duplicated
         (1, st.tuples(st.just("delete_link"), SEL, st.integers(0, 2), SEL, st.integers(0, 2)).map(list)),
         (3, st.tuples(st.just("delete_existing_link"), SEL).map(list)),
         (2, st.tuples(st.just("delete_node"), SEL).map(list)),
@@ -391,6 +390,7 @@ def dense_history_strategy(max_steps: int):
         (2, st.tuples(st.just("add_node"), st.sampled_from(["dfg", "custom", "noop", "not"]), s, st.one_of(st.none(), st.integers(0, 2)), st.none()).map(list)),
         (7, st.tuples(st.just("add_link"), s, o, s, o).map(list)),
         (2, st.tuples(st.just("add_order_link"), s, s).map(list)),
+        (2, st.tuples(st.just("add_link"), s, st.just(-1), s, st.just(-1)).map(list)),
         (2, st.tuples(st.just("delete_existing_link"), SEL).map(list)),
         (1, st.tuples(st.just("delete_link"), s, o, s, o).map(list)),
         (3, st.tuples(st.just("delete_node"), SEL).map(list)),
@@ -416,12 +416,16 @@ def insert_churn_strategy(max_steps: int):
     from vlib.asts import weighted
 
     churn = weighted(
-        (5, st.tuples(st.just("add_node"), st.sampled_from(OP_POOL), SEL, st.one_of(st.none(), st.integers(0, 3)), META).map(list)),
+        (5, st.tuples(st.just("add_node"), st.sampled_from(["dfg", "dfg", "dfg", *OP_POOL]), SEL, st.one_of(st.none(), st.integers(0, 3)), META).map(list)),
         (4, st.tuples(st.just("delete_node"), SEL).map(list)),
         (1, st.tuples(st.just("add_link"), SEL, st.integers(0, 2), SEL, st.integers(0, 2)).map(list)),
         (1, st.tuples(st.just("add_order_link"), SEL, SEL).map(list)),
     )
-    sub = st.fixed_dictionaries({"root": st.sampled_from(["dfg", "module", "custom"]), "steps": st.lists(churn, min_size=3, max_size=12)})
+    # nested containers, leaves deleted from the highest index downwards, then new children anywhere: the
+    # free indices lie on both sides of the parents that get children
+    add_c = st.tuples(st.just("add_node"), st.sampled_from(["dfg", "dfg", "custom", "noop"]), SEL, st.none(), st.none()).map(list)
+    desc = st.tuples(st.lists(add_c, min_size=4, max_size=9), st.lists(st.tuples(st.just("delete_node"), st.sampled_from([-1, -1, -2, 0, 1])).map(list), min_size=2, max_size=4), st.lists(add_c, min_size=1, max_size=4)).map(lambda t: t[0] + t[1] + t[2])
+    sub = st.fixed_dictionaries({"root": st.sampled_from(["dfg", "module", "custom"]), "steps": st.one_of(st.lists(churn, min_size=3, max_size=12), desc)})
     step = weighted((3, churn), (2, st.tuples(st.just("insert_hugr"), sub, SEL).map(list)))
     return st.fixed_dictionaries({"root": st.sampled_from(["module", "dfg"]), "steps": st.lists(step, min_size=2, max_size=max_steps)})
 
